@@ -244,7 +244,8 @@ class NumpyInterpreter:
                     self.context[stmt.assignee] = self.eval_mapper(stmt.expression)
 
             for ident, _, _ in stmt.loops:
-                del self.context[ident]
+                # A loop with no iterations never set its counter.
+                self.context.pop(ident, None)
 
     def exec_AssignFunctionCall(self, stmt):
         parameters = [
